@@ -1,5 +1,5 @@
 """C14 — token initialisation, re-initialisation and isolation between tokens (DESIGN.md §3 C14; very narrow)."""
-import re
+import os, re
 from engine.rulelib import *
 from rules.c03 import outcomes, ev_calls
 from rules import c03, c11
@@ -100,20 +100,7 @@ def r3_keying(ctx, prog):
     r = ctx.rule('C14.R3', 'per-token keying: closes and purges use the handle/slot of this call; slot derived from the token serial', floor=10, engine='E3+E6')
     r.instances = [i for i in sub.rules[0].instances if i['function'] in ('SoftHSM::C_CloseSession', 'SoftHSM::C_CloseAllSessions', 'SoftHSM::C_Logout')]
     r.paths = sub.rules[0].paths
-    # SlotManager: slot id from the last 8 hex digits of the serial, with the short-serial fallback
-    f = prog.fn('SlotManager::SlotManager')
-    ctx.analysed(f)
-    subs = [c for c in calls(f['body'], short='substr')]
-    guarded = False
-    for n in walk(f['body']):
-        if n.get('k') == 'If' and any(b.get('k') == 'Bin' and b['op'] in ('<', '>=', '>', '<=') and 'size' in canon(b) and '8' in canon(b) for b in walk(n['c'])):
-            guarded = True
-    if subs and not guarded:
-        r.violation(f['qname'], 'short serial', 'the slot id is cut from the token serial with substr(size-8) without the short-serial test: a half-initialised token (no serial yet) makes C_Initialize throw -> exit', file=f['file'], line=subs[0]['l'])
-    elif subs:
-        r.ok(f['qname'], 'short serial', 'size test before substr', file=f['file'], line=subs[0]['l'])
-    else:
-        r.undecided(f['qname'], 'short serial', 'serial-to-slot computation not found', file=f['file'], line=f['line'])
+    # SlotManager: slot id from the last 8 hex digits of the serial — the short-serial case is decided by the entailment rule (C14.R3b below), whatever form the code has
     # Token::sdm ownership
     allowed = {'Token::Token', 'Token::createToken', 'Token::~Token', 'Token::setUserPIN'}
     for g in prog.functions.values():
@@ -159,6 +146,9 @@ def run(ctx):
     r2_createtoken(ctx, prog)
     r3_keying(ctx, prog)
     r4_free_slot(ctx, prog)
+    from rules import c17
+    c17.r3_underflow(ctx, prog, rule_id='C14.R3b', text='the slot id is cut from the token serial without an unsigned wrap (a token without serial yet must not make C_Initialize throw)', floor=1,
+                     only={g['qname'] for g in prog.functions.values() if os.path.basename(g['file']) == 'SlotManager.cpp'})
 
 
 MUTANTS = [
@@ -174,6 +164,6 @@ MUTANTS = [
          old='\tif (tokenObject->attributeExists(CKA_OS_USERPIN) &&\n\t    !tokenObject->deleteAttribute(CKA_OS_USERPIN))', new='\tif (false)'),
     dict(name='closesession-internal-handle', rule='C14.R3', file='src/lib/SoftHSM.cpp', after='CK_RV SoftHSM::C_CloseSession(',
          old='\tsessionObjectStore->sessionClosed(hSession);', new='\tsessionObjectStore->sessionClosed(session->getHandle());'),
-    dict(name='slotmanager-no-short-serial-test', rule='C14.R3', file='src/lib/slot_mgr/SlotManager.cpp',
+    dict(name='slotmanager-no-short-serial-test', rule='C14.R3b', file='src/lib/slot_mgr/SlotManager.cpp',
          old='if (s.size() < 8)', new='if (false)'),
 ]
